@@ -449,7 +449,9 @@ pub fn run(ctx: &mut Ctx) {
     let nf = ctx.n(60_000, 600_000);
     ctx.stage("fstring", nf, true, |_idx, rng, rep| {
         let nseg = rng.below(7);
-        let mut src = String::from("f'");
+        // embedded expressions may be literals (spelled with single quotes), so half of the f-strings use double quotes
+        let q = if rng.chance(1, 2) { '"' } else { '\'' };
+        let mut src = format!("f{}", q);
         let mut expect: Option<String> = Some(String::new());
         let mut binds: Vec<(String, CelValue)> = Vec::new();
         let mut desc: Vec<String> = Vec::new();
@@ -464,6 +466,7 @@ pub fn run(ctx: &mut Ctx) {
                         '{' => src.push_str("{{"),
                         '}' => src.push_str("}}"),
                         '\'' => src.push_str("\\'"),
+                        '"' => src.push_str("\\\""),
                         '\\' => src.push_str("\\\\"),
                         '\n' => src.push_str("\\n"),
                         c => src.push(c),
@@ -476,7 +479,9 @@ pub fn run(ctx: &mut Ctx) {
             } else {
                 n_expr += 1;
                 let name = format!("v{}", k);
-                let v = match rng.below(10) {
+                let v = match rng.below(12) {
+                    10 => CelValue::from_bool(rng.chance(1, 2)),
+                    11 => CelValue::from_null(),
                     0 => CelValue::from_int(rng.next() as i64),
                     1 => CelValue::from_uint(rng.next()),
                     2 => CelValue::from_float(rng.range(-1000, 1000) as f64 / 8.0),
@@ -488,11 +493,22 @@ pub fn run(ctx: &mut Ctx) {
                     8 => vals::mk_map(&[("a", 1.into())]),
                     _ => CelValue::from_bytes(vec![0xff, 0xfe]),
                 };
-                // the embedded expression: the variable, or a small expression over it
-                let e = match rng.below(4) {
-                    0 => format!("{} ", name),
-                    1 => format!("[{}][0]", name),
-                    2 => format!("({})", name),
+                // the embedded expression: the variable, a small expression over it, or - the compile-time path - the
+                // value written as a literal / constant expression (only spellings that can stand inside this f-string)
+                let lit = vals::spell(&v).filter(|t| q == '"' && !t.contains('"') && !t.contains('\\') && !t.contains('{') && !t.contains('}') && !t.contains('\n'));
+                let e = match (rng.below(8), lit) {
+                    (0, _) => format!("{} ", name),
+                    (1, _) => format!("[{}][0]", name),
+                    (2, _) => format!("({})", name),
+                    (3, Some(t)) | (4, Some(t)) => {
+                        rep.count("fstring/constant-segment");
+                        rep.count(&format!("fstring/constant-segment/{}", mon::vtype(&v)));
+                        t
+                    }
+                    (5, Some(t)) => {
+                        rep.count("fstring/constant-segment");
+                        format!("[{}][0]", t)
+                    }
                     _ => name.clone(),
                 };
                 src.push('{');
@@ -508,7 +524,7 @@ pub fn run(ctx: &mut Ctx) {
                 binds.push((name, v));
             }
         }
-        src.push('\'');
+        src.push(q);
         let out = mon::run1(&src, &binds);
         rep.eval();
         rep.count(if expect.is_some() { "fstring/expect-value" } else { "fstring/expect-failure" });
